@@ -163,10 +163,12 @@ def _media_class(rec, rel, classes, rnd: random.Random):
     return type("Media", (), d)
 
 
-def run_real(cls_recs, rel, accesses, forms: int) -> List[Dict[str, Any]]:
+def run_real(cls_recs, rel, accesses, forms: int, keep_memo: bool = False) -> List[Dict[str, Any]]:
     """Build the hierarchy with type() in a fresh module and perform the accesses.
     `accesses` is a list of [c, attr, via]; accesses to classes that could not be created are
-    dropped.  Returns the events (creation outcomes, then one observation per access)."""
+    dropped.  Returns the events (creation outcomes, then one observation per access).
+    Every run uses the class names K1..Kn in a module of its own; with keep_memo the classes stay
+    in the library's memo table afterwards (same-named classes of earlier runs must not matter)."""
     from django.core.exceptions import ImproperlyConfigured
     from django_components import Component
     w = world()
@@ -195,7 +197,9 @@ def run_real(cls_recs, rel, accesses, forms: int) -> List[Dict[str, Any]]:
                         if k in ("inline", "both"):
                             attrs[p] = World.content(i, p, "inline")
                         if k in ("file", "both"):
-                            attrs[p + "_file"] = World.attr_file(i, p)
+                            # `template_name` is the documented older spelling of `template_file`
+                            name = "template_name" if p == "template" and rnd.random() < 0.25 else p + "_file"
+                            attrs[name] = World.attr_file(i, p)
                     classes[i] = type(f"K{i}", bases, attrs)
                     out = "ok"
                 except ImproperlyConfigured:
@@ -204,7 +208,10 @@ def run_real(cls_recs, rel, accesses, forms: int) -> List[Dict[str, Any]]:
                     out = "typeerror" if "MRO" in str(e) or "order" in str(e) else "other:TypeError"
                 except Exception as e:  # noqa
                     out = "other:" + type(e).__name__
-                events.append({"op": "create", "c": i, "out": out})
+                # the MRO Python computed, as class indices (cross-check of the C3 transcription)
+                index = {v: k for k, v in classes.items()}
+                mro = [index[k] for k in classes[i].__mro__ if k in index] if out == "ok" else []
+                events.append({"op": "create", "c": i, "out": out, "mro": mro})
                 if out != "ok":
                     break
             for c, a, via in accesses:
@@ -226,6 +233,8 @@ def run_real(cls_recs, rel, accesses, forms: int) -> List[Dict[str, Any]]:
                     else:
                         v = getattr(target, a)
                         fv = getattr(target, a + "_file")
+                        if a == "template" and target.template_name != fv:
+                            fv = ("template_name differs", fv, target.template_name)
                         if v is not None:
                             m_ = re.fullmatch(rf"{a}:(inline|file):c(\d+)", v) if isinstance(v, str) else None
                             ev["src"], ev["kind"] = (int(m_.group(2)), m_.group(1)) if m_ else (UNKNOWN, "unknown")
@@ -238,13 +247,14 @@ def run_real(cls_recs, rel, accesses, forms: int) -> List[Dict[str, Any]]:
                 events.append(ev)
     finally:
         sys.modules.pop(modname, None)
-        try:  # hygiene only: do not let 10^5 dead classes pile up in the process-global memo
-            import django_components.component_media as cm
-            for k, cls in classes.items():
-                if k:
-                    cm.media_cache.pop(cls, None)
-        except Exception:
-            pass
+        if not keep_memo:
+            try:  # hygiene only: do not let 10^5 dead classes pile up in the process-global memo
+                import django_components.component_media as cm
+                for k, cls in classes.items():
+                    if k:
+                        cm.media_cache.pop(cls, None)
+            except Exception:
+                pass
     return events
 
 
@@ -257,6 +267,9 @@ ROOT_EXP = {"create": ["ok"], "files": {t: [] for t in TYPES}, "cons": {t: True 
 def failing(ev, exp) -> List[str]:
     """Clauses of the exported expectation `exp` (for the class of the event) that `ev` violates."""
     if ev["op"] == "create":
+        if "typeerror" in (ev["out"], *exp["create"]) and [ev["out"]] != exp["create"] or \
+                (ev["out"] == "ok" and ev["mro"] != exp["mro"]):
+            raise MachineryError(f"C3 transcription and Python disagree: {ev} vs {exp['create']} {exp['mro']}")
         return [] if ev["out"] in exp["create"] else [f"creation:{ev['out']}/{'|'.join(exp['create'])}"]
     if ev["exc"]:
         return ["exception:" + ev["a"]]
@@ -356,7 +369,7 @@ def apply_verdicts(chk: Check, pending: List[Dict[str, Any]], res: Dict[Any, Any
         case = {"kind": "run", "cls": p["cls"], "rel": p["rel"], "accesses": p["accesses"], "forms": p["forms"]}
         if r["verdict"] == "reject":
             ev = p["events"][r["event"] - 1]
-            if "C." in r["clauses"] and "typeerror" in r["clauses"]:
+            if ("C." in r["clauses"] and "typeerror" in r["clauses"]) or "M.mro" in r["clauses"]:
                 raise MachineryError(f"C3 transcription and Python disagree: {r['clauses']} on {canon(p['cls'])}")
             chk.violation(case, {"event_index": r["event"], "event": ev, "failing_clauses": r["clauses"],
                                  "py_clauses": p.get("py_clauses")})
@@ -377,36 +390,41 @@ def apply_verdicts(chk: Check, pending: List[Dict[str, Any]], res: Dict[Any, Any
 
 # ---------------------------------------------------------------- spec -> code
 FAMILIES = {
-    # name: (cfg constants quick, cfg constants thorough, replay limit quick, replay limit thorough)
-    # three classes: single and multiple inheritance, every extend form, 4 (6) Media contents
-    "media": (dict(maxn=3, lists="ListsQuick", kinds="KindsBasic", trim=True),
-              dict(maxn=3, lists="ListsThorough", kinds="KindsAll"), None, None),
+    # name: per tier (cfg constants, number of hierarchies replayed (None: all), first-access orders per hierarchy)
+    # three classes: single and multiple inheritance, every extend form, 4 (5) Media contents
+    "media": {"quick": (dict(maxn=3, lists="ListsQuick", kinds="KindsBasic", trim=True), None, 2),
+              "thorough": (dict(maxn=3, lists="ListsThorough", kinds="KindsAll"), None, 6)},
     # the pair rule and the rejection of both members
-    "attr": (dict(maxn=3, lists="ListsNone", kinds="KindsNone", attrs="AttrsAll"),
-             dict(maxn=3, lists="ListsNone", kinds="KindsNone", attrs="AttrsAll"), None, None),
+    "attr": {"quick": (dict(maxn=3, lists="ListsNone", kinds="KindsNone", attrs="AttrsAll"), None, 2),
+             "thorough": (dict(maxn=3, lists="ListsNone", kinds="KindsNone", attrs="AttrsAll"), None, 6)},
     # four classes (diamonds): pair rule along the C3 MRO / Media through two paths
-    "attr4": (dict(maxn=4, lists="ListsNone", kinds="KindsNone", attrs="AttrsFew"),
-              dict(maxn=4, lists="ListsNone", kinds="KindsNone", attrs="AttrsFew"), 1500, None),
-    "media4": (dict(maxn=4, lists="ListsTiny", kinds="KindsBasic", exts="ExtsTF", trim=True),
-               dict(maxn=4, lists="ListsTiny", kinds="KindsBasic", exts="ExtsTF", trim=True), 1000, 20000),
-    # component-relative files, media read before / after template, js, css
-    "rel": (dict(maxn=2, lists="ListsRel", kinds="KindsBasic", attrs="AttrsFew", rel="Rel1"),
-            dict(maxn=3, lists="ListsRel", kinds="KindsBasic", attrs="AttrsFew", rel="Rel1", exts="ExtsTF"),
-            1000, 20000),
+    "attr4": {"quick": (dict(maxn=4, lists="ListsNone", kinds="KindsNone", attrs="AttrsFew"), 1500, 2),
+              "thorough": (dict(maxn=4, lists="ListsNone", kinds="KindsNone", attrs="AttrsFew"), None, 8)},
+    "media4": {"quick": (dict(maxn=4, lists="ListsTiny", kinds="KindsBasic", exts="ExtsTF", trim=True), 1000, 2),
+               "thorough": (dict(maxn=4, lists="ListsTiny", kinds="KindsBasic", exts="ExtsTF", trim=True), 12000, 8)},
+    # component-relative files, media read before / after template, js, css (every second run
+    # contradicts the specification here and has to be explained by TLC, hence the caps)
+    "rel": {"quick": (dict(maxn=2, lists="ListsRel", kinds="KindsBasic", attrs="AttrsFew", rel="Rel1"), 1000, 2),
+            "thorough": (dict(maxn=3, lists="ListsRel", kinds="KindsBasic", attrs="AttrsFew", rel="Rel1",
+                              exts="ExtsTF"), 2500, 2)},
 }
 ORDER = ("attr", "rel", "attr4", "media4", "media")     # cheap exports first
 _export_cache: Dict[Any, Any] = {}
 
 
-def plans(fam: str, m: int, idx: int, all_orders: bool) -> List[List[List[Any]]]:
-    """Access histories driven on one exported hierarchy with m usable classes."""
+def plans(fam: str, m: int, idx: int, nperms: int) -> List[List[List[Any]]]:
+    """Access histories driven on one exported hierarchy with m usable classes: `nperms`
+    permutations of the classes as first-access order (all of them if there are not more; else a
+    selection rotating with the index of the hierarchy, so that every order occurs on every shape)."""
     perms = list(itertools.permutations(range(1, m + 1)))
-    if not all_orders and len(perms) > 2:
-        first, L = (2 * idx) % len(perms), len(perms)
-        perms = [perms[first], perms[(first + 1 + (idx // L) % (L - 1)) % L]]
-    elif len(perms) > 8:
-        rnd = random.Random(idx)
-        perms = [perms[0], perms[-1]] + rnd.sample(perms[1:-1], 6)
+    L = len(perms)
+    if L > nperms:
+        if nperms == 2:
+            first = (2 * idx) % L
+            perms = [perms[first], perms[(first + 1 + (idx // L) % (L - 1)) % L]]
+        else:
+            rnd = random.Random(idx)
+            perms = [perms[0], perms[-1]] + rnd.sample(perms[1:-1], nperms - 2)
     out = []
     for n, perm in enumerate(perms):
         v = ["cls", "inst"] if (idx + n) % 2 == 0 else ["inst", "cls"]
@@ -432,12 +450,12 @@ REPLAY_PROCS = 4
 def _replay_chunk(args):
     """Worker: replay exported hierarchies under their access plans; returns counts and the runs
     that contradict the exported expectation (to be judged by TLC in the parent)."""
-    fam, quick, seed, items = args
+    fam, nperms, seed, items = args
     pending, counted, samples = [], [], []
     for idx, cls, rel, exps, m in items:
         nontrivial = m >= 2 and any(c["media"] == "def" or any(v != "none" for v in c["attr"].values())
                                     for c in cls)
-        for n, acc in enumerate(plans(fam, max(m, 1), idx, not quick)):
+        for n, acc in enumerate(plans(fam, max(m, 1), idx, nperms)):
             forms = seed * 1000003 + idx * 13 + n
             events = run_real(cls, rel, acc, forms)
             bad = []
@@ -460,7 +478,7 @@ def export_cases(fam: str, quick: bool):
     if (fam, quick) in _export_cache:
         return _export_cache[(fam, quick)]
     w = workdir("c16mc")
-    consts = FAMILIES[fam][0 if quick else 1]
+    consts = FAMILIES[fam]["quick" if quick else "thorough"][0]
     cfg = w / f"mc_{fam}.cfg"
     out = w / f"cases_{fam}.ndjson"
     _cfg(cfg, "MCSpec", extra="INVARIANT Export\n", **consts)
@@ -472,10 +490,13 @@ def export_cases(fam: str, quick: bool):
     return _export_cache[(fam, quick)]
 
 
-def replay_cases(chk: Check, fam: str, quick: bool, exported, pool, limit: Optional[int] = None):
+def replay_cases(chk: Check, fam: str, quick: bool, exported, pool, small: bool = False):
     """Replay the exported hierarchies on the real library; returns the runs that contradict the
     exported expectation (TLC then cross-checks and classifies them)."""
     rows, distinct, generated, maxn = exported
+    _, limit, nperms = FAMILIES[fam]["quick" if quick else "thorough"]
+    if small:
+        limit = 400
     chk.add("states", distinct)
     chk.add("transitions", generated)
     exp_of = {canon(row["cls"]): row["last"] for row in rows}
@@ -494,9 +515,9 @@ def replay_cases(chk: Check, fam: str, quick: bool, exported, pool, limit: Optio
         items.append((idx, cls, row["rel"], exps, m))
     if pool is not None and len(items) > 2000:
         n = REPLAY_PROCS * 4
-        results = pool.map(_replay_chunk, [(fam, quick, chk.seed, items[k::n]) for k in range(n)])
+        results = pool.map(_replay_chunk, [(fam, nperms, chk.seed, items[k::n]) for k in range(n)])
     else:
-        results = [_replay_chunk((fam, quick, chk.seed, items))]
+        results = [_replay_chunk((fam, nperms, chk.seed, items))]
     pending: List[Dict[str, Any]] = []
     runs = 0
     for pend, counted, samples in results:
@@ -530,7 +551,7 @@ def model_check_machine(quick: bool) -> Dict[str, Any]:
                          extra=inv),
         # three classes (multiple inheritance, extend lists), media only
         "machine3": dict(maxn=3, maxacc=2, lists="ListsTiny" if quick else "ListsQuick", accattrs="AccMedia",
-                         accvias="ViasCls", trim=quick, extra=inv),
+                         accvias="ViasCls", trim=quick, extra=inv + "INVARIANT FlattenOnlyOnShape\n"),
         "dev_inherit": dict(maxn=3, maxacc=1, lists="ListsTiny", accattrs="AccMedia", accvias="ViasCls",
                             impld="DevInherit", extra="INVARIANT ImplRefines\n"),
         "dev_flatten": dict(maxn=3, maxacc=1, lists="ListsQuick", accattrs="AccMedia", accvias="ViasCls",
@@ -597,7 +618,7 @@ def random_traces(chk: Check, ntraces: int) -> List[Dict[str, Any]]:
         cls, rel = gen_hierarchy(rnd)
         forms = rnd.randrange(1 << 30)
         # create first (a rejected class ends the hierarchy), then choose the history
-        created = run_real(cls, rel, [], forms)
+        created = run_real(cls, rel, [], forms, keep_memo=True)
         m = sum(1 for e in created if e["out"] == "ok")
         cls = cls[:len(created)]
         acc = []
@@ -605,7 +626,7 @@ def random_traces(chk: Check, ntraces: int) -> List[Dict[str, Any]]:
             c = rnd.choice([0] + list(range(1, m + 1)) * 3) if m else 0
             a = "media" if rnd.random() < 0.5 else rnd.choice(PAIRS)
             acc.append([c, a, rnd.choice(["cls", "inst"])])
-        events = run_real(cls, rel, acc, forms)
+        events = run_real(cls, rel, acc, forms, keep_memo=n < 2000)
         pending.append({"cls": cls, "rel": rel, "accesses": acc, "forms": forms, "events": events})
         chk.count({"cls": cls, "rel": rel, "accesses": acc})
         if n < 3:
@@ -633,8 +654,7 @@ def _body(chk: Check, quick: bool, small: bool = False) -> None:
             judged.append((rnd_runs, ex.submit(tlc_validate, as_traces(rnd_runs), "random"), False))
             phase["random_recorded"] = round(time.time() - t_start, 1)
             for fam in ORDER:
-                limit = 400 if small else FAMILIES[fam][2 if quick else 3]
-                pend = replay_cases(chk, fam, quick, exports[fam].result(), pool, limit=limit)
+                pend = replay_cases(chk, fam, quick, exports[fam].result(), pool, small=small)
                 judged.append((pend, ex.submit(tlc_validate, as_traces(pend), f"explain_{fam}"), True))
                 phase[f"{fam}_replayed"] = round(time.time() - t_start, 1)
             for pend, fut, flagged in judged:
@@ -658,13 +678,20 @@ def run(tier: str) -> int:
     quick = tier == "quick"
     _body(chk, quick)
     chk.cov["exhaustive"] = True
+    chk.cov["sampled_families"] = {f: FAMILIES[f][tier][1] for f in FAMILIES if FAMILIES[f][tier][1] is not None}
     chk.cov["rule"] = (
-        "every hierarchy TLC builds from the catalogues of MC_C16 (<= 3 classes, attr family <= 4 in thorough; "
-        "<= 2 bases; own Media none/None/6 contents x extend True/False/every list of <= 2 earlier classes; "
-        "7 asset-kind triples; component-relative files) is exported with the expectation of MediaInherit and "
-        "replayed under permutations of first accesses (2 per hierarchy in quick, all in thorough) on classes "
-        "and instances; random deeper runs are validated by Trace_C16.  Non-trivial = >= 2 classes and some "
-        "class declares Media or an asset; distinct by hash of (hierarchy, access history)")
+        "spec -> code: every hierarchy TLC builds by AddClass from the catalogues of MC_C16 is exported with what "
+        "MediaInherit expects and replayed on fresh classes under permutations of the first accesses (on classes "
+        "and instances; the rotation makes every order occur on every shape): family media = 3 classes, <= 2 bases, "
+        "own Media none / (None) / 4-5 contents x extend True / False / every list of <= 2 earlier classes, "
+        "exhaustive; attr = 3 classes x 7 asset-kind triples incl. both members, exhaustive; attr4 / media4 = 4 "
+        "classes (diamonds); rel = component-relative files with media read before / after / between template, js, "
+        "css (families in sampled_families: seeded sample of that many hierarchies).  A hierarchy that can still be "
+        "extended is replayed as prefix of its extensions.  code -> spec: seeded random hierarchies of 3-6 classes, "
+        "<= 3 bases, lists of <= 3 files from 4, relative files, all surface forms, 4-14 random accesses, validated "
+        "by Trace_C16; every run contradicting the exported expectation is also judged by Trace_C16.  Non-trivial = "
+        ">= 2 usable classes and some class declares Media or an asset; distinct by hash of (family, hierarchy, "
+        "access plan) resp. of the random run")
     chk.assumptions += [
         "order is asserted only as 'linear extension of every contributing declared list' and only when those "
         "lists are acyclic; cyclic lists are compared as sets",
@@ -672,6 +699,7 @@ def run(tier: str) -> int:
         "a class without own Media has the default extend=True (DESIGN C16; docs: Media holds only the class's own definition)",
         "Python's own rejection of hierarchies without C3 order is used only to cross-check the MRO transcription",
         "SafeString entries, media_class subclasses and non-Component mixin bases are not generated",
+        "layer B (MediaInheritImpl) is used only to classify an observation the specification already rejected",
     ]
     return chk.finish()
 
@@ -740,6 +768,27 @@ def selftest(tier: str) -> int:
             return patch(cm, "_get_comp_cls_attr", fn)
         return cmgr
 
+    class NameKeyed(dict):
+        """the memo table keyed by the class name instead of the class"""
+        @staticmethod
+        def _k(k):
+            return getattr(k, "__name__", k)
+
+        def __contains__(self, k):
+            return dict.__contains__(self, self._k(k))
+
+        def __getitem__(self, k):
+            return dict.__getitem__(self, self._k(k))
+
+        def __setitem__(self, k, v):
+            dict.__setitem__(self, self._k(k), v)
+
+        def get(self, k, d=None):
+            return dict.get(self, self._k(k), d)
+
+        def pop(self, k, *d):
+            return dict.pop(self, self._k(k), *d)
+
     LIST = "        else:\n            bases = media_extend\n"
     probes = [
         ("extend-list-ignored", media_probe((LIST, "        else:\n            bases = curr_cls.__bases__\n"))),
@@ -751,13 +800,7 @@ def selftest(tier: str) -> int:
         ("only-first-base-merged", media_probe(("        for base in bases:\n", "        for base in list(bases)[:1]:\n"))),
         ("grandparents-only-if-already-memoised (order dependent)",
          media_probe(("        if unresolved_bases:\n", "        if unresolved_bases and curr_cls is comp_cls:\n"))),
-        ("memo-keyed-by-class-name",
-         media_probe(("        if curr_cls in media_cache:\n            continue\n",
-                      "        if any(k.__name__ == curr_cls.__name__ and k.__module__ != curr_cls.__module__ and "
-                      "k.__module__.startswith('vf_c16') for k in list(media_cache)[-3:]):\n"
-                      "            media_cache[curr_cls] = next(v for k, v in reversed(list(media_cache.items())) "
-                      "if k.__name__ == curr_cls.__name__ and k is not curr_cls)\n"
-                      "        if curr_cls in media_cache:\n            continue\n"))),
+        ("memo-keyed-by-class-name", lambda: patch(cm, "media_cache", NameKeyed())),
         ("css-media-types-other-than-all-dropped-on-merge",
          media_probe(("css=merged_media._css)", "css={k: v for k, v in merged_media._css.items() if k == 'all'})"))),
         ("base-files-replace-own-files",
